@@ -857,6 +857,12 @@ def search(run: lib.Run, broken):
                 "history judged on the classes as they are at that call); non-trivial = has classes or a "
                 "container/union root",
     }
+    # one bare string given to static_order / itertypes from several modules that bind it differently (histories)
+    import c09_modules
+    nmod, mod_fails = c09_modules.check()
+    run.search_stats["oracle"]["string_across_modules_histories"] = nmod
+    run.search_stats["oracle"]["evaluations"] += nmod
+    kept += mod_fails
     if kept:
         run.samples.append({"oracle_failure": {k: v for k, v in kept[0].items() if k != "case"}})
     return kept
@@ -873,6 +879,9 @@ def own_findings():
 
 
 def replay(payload):
+    if payload.get("kind") == "c09-string-modules":
+        import c09_modules
+        return c09_modules.replay(payload)
     case = thaw_case(payload["case"])
     fs = oracle(case)
     want = payload.get("symptom")
